@@ -534,7 +534,11 @@ def _apply_group_method_single_chunk(
 
 @nb.njit(parallel=True, cache=True)
 def reduce_array_pair(
-    x: np.ndarray, y: np.ndarray, reducer: Callable, counts: Optional[np.ndarray] = None
+    x: np.ndarray,
+    y: np.ndarray,
+    reducer: Callable,
+    counts: Optional[np.ndarray] = None,
+    y_counts: Optional[np.ndarray] = None,
 ):
     """
     Apply a reduction function element-wise to pairs of arrays using parallel processing.
@@ -580,6 +584,9 @@ def reduce_array_pair(
     """
     out = x.copy()
     for i in nb.prange(len(x)):
+        if y_counts is not None and y_counts[i] == 0:
+            # nothing was accumulated in y[i]: it only holds the initial value
+            continue
         if counts is None:
             count = 1
         else:
@@ -718,6 +725,7 @@ def combine_chunk_results_for_factorized_key(
     """
     combined = chunks[0]
 
+    counts_given = counts is not None
     if counts is None:
         counts = np.zeros(len(chunks))
         combined_count = 0
@@ -726,7 +734,11 @@ def combine_chunk_results_for_factorized_key(
 
     for chunk, count in zip(chunks[1:], counts[1:]):
         combined = reduce_array_pair(
-            combined, chunk, getattr(ScalarFuncs, reduce_func_name)
+            combined,
+            chunk,
+            getattr(ScalarFuncs, reduce_func_name),
+            counts=combined_count if counts_given else None,
+            y_counts=count if counts_given else None,
         )
         combined_count = combined_count + count
 
